@@ -397,3 +397,6 @@ def run(ctx):
     r08_3(ctx)
     r08_4(ctx)
     r08_5(ctx)
+    # R08.6 = R01.7: a bounding-box restricted (on-demand) assembler addresses the same Gauss nodes as the full one
+    import rules.C01 as c01
+    ctx.shared(c01.r01_7, 'R01.7', 'R08.6')
